@@ -92,5 +92,25 @@ def stripTaskSuffix (s : Str) : Str :=
 /-- the task name of a class without `Meta.name` -/
 def classTaskName (cls : Str) : Str := stripTaskSuffix (snake cls)
 
+/-! ## wildcard import strings (`tasks: module.Prefix*`) -/
+
+/-- `utils/clazz.py: import_by_string` with a wildcard in the last part: the part becomes a regular expression — every `*` that is not
+preceded by a `.` becomes `.*` — and a member is taken when `pattern.match(name)`, i.e. when the pattern matches a PREFIX of its name.
+For parts made of name characters and `*` (no other regex metacharacter): -/
+def starAny (f : Str → Bool) : Str → Bool
+  | [] => f []
+  | c :: n => f (c :: n) || starAny f n
+
+def globPrefix : Str → Str → Bool
+  | [], _ => true
+  | c :: p, n =>
+    if c = '*' then starAny (globPrefix p) n
+    else match n with
+      | [] => false
+      | d :: n' => c == d && globPrefix p n'
+
+/-- the members a wildcard import string stands for, in definition order -/
+def globSelect (pat : Str) (names : List Str) : List Str := names.filter (globPrefix pat)
+
 end Names
 end TCV
